@@ -10,7 +10,7 @@ LINOP_ASSUME = ["bounds: atom catalogue and MaxStack/MaxLevel/MaxFlat of the the
                 "entries over Z[i]; flat sizes <= 16 (quick) / 24 (thorough)", "CPU numpy backend only"]
 
 PROPS = {
-    "C01": {"level": "model_checking", "engines": [LINOP, ("interp", "interp", "run"), ("conv", "conv", "run"), ("nufft", "nufft", "run"), ("wavelet", "wavelet", "run"), ("sense", "sense", "run")], "rule": LINOP_RULE, "assumptions": LINOP_ASSUME, "trusted": TLC_BASE},
+    "C01": {"level": "model_checking", "engines": [LINOP, ("interp", "interp", "run"), ("conv", "conv", "run"), ("nufft", "nufft", "run"), ("wavelet", "wavelet", "run"), ("sense", "sense", "run"), ("fourier", "fourier", "run")], "rule": LINOP_RULE, "assumptions": LINOP_ASSUME, "trusted": TLC_BASE},
     "C02": {"level": "model_checking", "engines": [LINOP, ("index_maps", "index_maps", "run"), ("prox", "prox", "run"), ("nufft", "nufft", "run"), ("purity", "purity", "run")], "rule": LINOP_RULE, "assumptions": LINOP_ASSUME, "trusted": TLC_BASE},
     "C03": {"level": "model_checking", "engines": [LINOP], "rule": LINOP_RULE, "assumptions": LINOP_ASSUME, "trusted": TLC_BASE},
     "C04": {"level": "model_checking", "engines": [LINOP, ("interp", "interp", "run"), ("nufft", "nufft", "run")], "rule": LINOP_RULE, "assumptions": LINOP_ASSUME, "trusted": TLC_BASE},
